@@ -373,6 +373,8 @@ def c18(prop, pool, verdict, tier, seed):
         rp = write_replay(prop, 'lemma-' + f['obligation'], {'kind': 'obligation-only', 'property': prop, 'obligation': f['obligation'],
                                                              'solver': {'backend': 'cvc5 --strings-exp', 'detail': f['detail']}})
         verdict.violation(rp, 'no-failing-input-found')
+    for u in lem.get('undecided', []):
+        verdict.undecided.append('obligation=%s reason=%s' % (u['obligation'], u['detail'][:200]))
     d = prop_c18.run(pool, tier, seed)
     by = {}
     for f in d['fails']:
@@ -552,6 +554,31 @@ def c17(prop, pool, verdict, tier, seed):
         rp = write_replay(prop, 'render-' + k, {'kind': 'render', 'property': prop, 'graph': f['graph'], 'payload': f.get('payload', 'plain'),
                                                 'stage': f['stage'], 'check': f['kind'], 'detail': f['detail'], 'failing_inputs_in_scope': len(fs)})
         verdict.violation(rp)
+    # ---- graphs of the source front end (every generated program, drawn before and after every stage that succeeds)
+    from vcheck import load_known
+    sp = src_pass(pool, tier, seed)
+    for ce in sp.get('checker_exceptions', [])[:1]:
+        verdict.errors.append('the source pass raised on a program: %s' % (ce,))
+    by2 = {}
+    for f in [f for f in sp['fails'] if f['prop'] == prop]:
+        by2.setdefault(f['kind'], []).append(f)
+    for k, fs in sorted(by2.items()):
+        f = min(fs, key=lambda x: len(x['source']))
+        rp = write_replay(prop, 'program-' + k, {'kind': 'program', 'property': prop, 'source': f['source'], 'check': k, 'detail': f['detail'],
+                                                 'failing_inputs_in_scope': len(fs)})
+        verdict.violation(rp)
+    known = []
+    for f in load_known().get('findings', []):
+        if f['property'] == prop and f.get('kind') == 'program-region':
+            try:
+                r = witness_fails(prop, f['witness']['source'])
+            except Exception as e:
+                r = ('fail', {'kind': 'witness raised %r' % (e,)})
+            if r:
+                verdict.known.append('%s %s [region: %s] witness still fails: %s' % (f['id'], f['what'], f['region'], r[1].get('kind')))
+                known.append(f['id'] + ' still fails')
+            else:
+                known.append(f['id'] + ' witness no longer fails')
     cov = coverage_from(e1, fz, 'C17 has no deductive content beyond a finite arm-coverage check (E3: one instance of every block class rendered by both renderers). Bounded: the DOT '
                         'source of SCFGRenderer (and ByteFlowRenderer for bytecode flows) parsed with a small statement grammar and compared with the hierarchy: one node per '
                         'non-region block inside the cluster of its innermost region, one nested cluster per region, one solid edge per jump target and one dashed edge per back '
@@ -564,7 +591,11 @@ def c17(prop, pool, verdict, tier, seed):
     cov['distinct_nontrivial'] = d['nontrivial']
     cov['rule'] = ('every closed CFG with <= %d nodes plus seeded random ones (plain / AST / bytecode payloads) rendered at 4 stage prefixes, plus 3 bytecode functions through both '
                    'renderers; %d graphs; non-trivial = cycle or branch' % (d['exhaustive_nmax'], d['graphs']))
-    cov['exhaustive'] = True
+    cov['rule'] += ('; plus the graphs the source front end builds for %d generated programs, drawn before and after every restructuring stage that succeeds (outcomes: %s)'
+                    % (sp['programs'], {k.split(':')[1]: v for k, v in sorted(sp['counts'].items()) if k.startswith('C17:')}))
+    cov['evaluations'] += sp['programs']
+    cov['exhaustive'] = False
+    cov['known_findings'] = known
     cov['samples'] = cov['samples'] + d['samples'][:3]
     return 'exploration', cov, e1['assumptions'] + ['the graphviz Python layer emits one statement per line (quoted labels may span lines); no dot binary is involved']
 
@@ -607,6 +638,9 @@ def witness_fails(prop, src):
     from rtc import prop_src, progs
     fn = progs.compile_fn(src)
     ref = progs.behaviours(fn, max_len=4, max_runs=120)
+    if prop == 'C17':
+        r = prop_src.check_c17(src)
+        return r if r[0] == 'fail' else None
     if prop == 'C08':
         r = prop_src.check_c08(src, ref)
     else:
